@@ -533,7 +533,7 @@ func TestC19ConnectTo(t *testing.T) {
 		port := rapid.OneOf(rapid.SampledFrom([]string{"80", "443", "6060", "1", "65535", "8080"}), rapid.StringMatching(`[1-9][0-9]{0,3}`))
 		var c c19ConnectTo
 		n := rapid.IntRange(1, 8).Draw(t, "n")
-		var srcs []string
+		var srcs, dsts []string
 		for i := 0; i < n; i++ {
 			var fl c19CT
 			if rapid.IntRange(0, 6).Draw(t, "bad") == 0 {
@@ -546,6 +546,11 @@ func TestC19ConnectTo(t *testing.T) {
 					fl.Src = host.Draw(t, "sh") + ":" + port.Draw(t, "sp")
 				}
 				fl.Dst = host.Draw(t, "dh") + ":" + port.Draw(t, "dp")
+				if len(dsts) > 0 && rapid.IntRange(0, 2).Draw(t, "repdst") == 0 {
+					// a destination named before, for the same source or another one: listed again, in flag order
+					fl.Dst = rapid.SampledFrom(dsts).Draw(t, "rd")
+				}
+				dsts = append(dsts, fl.Dst)
 				srcs = append(srcs, fl.Src)
 				fl.Text = fl.Src + ":" + fl.Dst
 			}
